@@ -15,12 +15,12 @@ from checks import system_common as sc      # noqa
 
 
 def main():
-    sessions = [sc.session(i, 5 * 8191 + i) for i in range(60)]
+    sessions = [sc.session(i, 5 * 8191 + i, i % 3 == 0) for i in range(60)]
     bad = []
     for s in sessions:
         s2 = copy.deepcopy(s)
         s2["id"] = s["id"] + 1000
-        cands = [i for i, e in enumerate(s2["events"]) if e["op"] in ("setkey", "setattr", "setchartitem", "setchartfield", "getattr", "reopen", "tossc")]
+        cands = [i for i, e in enumerate(s2["events"]) if e["op"] in ("setkey", "setattr", "setchartitem", "setchartfield", "getattr", "reopen", "tossc", "tosm")]
         if not cands:
             continue
         i = cands[len(cands) // 2]
@@ -40,6 +40,8 @@ def main():
     tlc.require_ok(res, "Trace_System")
     v = {x["id"]: x for x in res.printed}
     good = collections.Counter(v[s["id"]]["verdict"] for s in sessions)
+    # (a session that leaves the serializer's domain is skipped from that event on: only twins of accepted sessions count)
+    bad = [(s2, at) for s2, at in bad if v[s2["id"] - 1000]["verdict"] == "ACCEPT"]
     hit = sum(1 for s2, at in bad if v[s2["id"]]["verdict"] == "REJECT" and v[s2["id"]]["at"] == at)
     print("recorded sessions:", dict(good), "| corrupted sessions rejected at the corrupted event: %d / %d" % (hit, len(bad)))
     print("coverage:", {k: c[1] for k, c in res.coverage.items()})
